@@ -521,8 +521,22 @@ InvSeqProg(c) == LET fd == SeqFns[c.fn]  as == Perm(fd.args, c.perm) IN
     EXCEPT !.mods = ModsOf(1), !.globals = [x \in {"cbcall", "cbcall2", "cbseq", "cbseq2"} |-> VBi(x)]]
 
 (* ---------------------------------------------------------- the states *)
-FamSeq(f) == CASE f = "closure" -> Closure [] f = "assign" -> Assign [] f = "const" -> ConstProgs
-ListIdx == UNION { {[f |-> x, i |-> i] : i \in 1..Len(FamSeq(x))} : x \in Fams \cap {"closure", "assign", "const"} }
+\* the catch identifier is a variable of its own, fresh for every execution of the catch clause
+CatchVar == <<
+  \* a dead block variable captured by a closure, then a catch identifier (which may get the block variable's slot)
+  <<Var("f"), If(T, <<Def("a", I(1)), Asg("f", Fn0(<<Ret(Id("a"))>>))>>, <<>>), Try(<<Thr(S("x"))>>, TRUE, "e", <<>>, FALSE, <<>>), Ret(C0(Id("f")))>>,
+  \* the catch identifier captured by a closure in every iteration of a loop
+  <<Def("fs", Arr(<<>>)), For(<<Def("i", I(0))>>, Bin("<", Id("i"), I(2)), <<Inc("i")>>,
+                               <<Try(<<Thr(S("x"))>>, TRUE, "e", <<Asg("e", Id("i")), Push1(Fn0(<<Ret(Id("e"))>>))>>, FALSE, <<>>)>>),
+    Ret(Arr(<<C0(Idx(Id("fs"), I(0))), C0(Idx(Id("fs"), I(1)))>>))>>,
+  \* the same inside a function called twice (a new activation each time: no sharing possible)
+  <<Def("fs", Arr(<<>>)), Def("g", Fn(<<"i">>, FALSE, <<Try(<<Thr(S("x"))>>, TRUE, "e", <<Asg("e", Id("i")), Push1(Fn0(<<Ret(Id("e"))>>))>>, FALSE, <<>>)>>)),
+    ExprS(C1(Id("g"), I(0))), ExprS(C1(Id("g"), I(1))), Ret(Arr(<<C0(Idx(Id("fs"), I(0))), C0(Idx(Id("fs"), I(1)))>>))>>,
+  \* no error thrown: the identifier is undefined in the finally block
+  <<Def("r", I(0)), Try(<<Asg("r", I(1))>>, TRUE, "e", <<Asg("r", I(2))>>, TRUE, <<Asg("r", Arr(<<Id("r"), Id("e")>>))>>), Ret(Id("r"))>>
+>>
+FamSeq(f) == CASE f = "closure" -> Closure [] f = "assign" -> Assign [] f = "const" -> ConstProgs [] f = "catchvar" -> CatchVar
+ListIdx == UNION { {[f |-> x, i |-> i] : i \in 1..Len(FamSeq(x))} : x \in Fams \cap {"closure", "assign", "const", "catchvar"} }
 AllIdx == ListIdx
           \cup (IF "call" \in Fams THEN CallIdx ELSE {})
           \cup (IF "rec" \in Fams THEN RecIdx ELSE {})
@@ -537,7 +551,7 @@ AllIdx == ListIdx
           \cup (IF "frag" \in Fams THEN FragIdx ELSE {})
           \cup (IF "epi" \in Fams THEN EpiIdx ELSE {})
           \cup (IF "inv" \in Fams THEN InvIdx ELSE {})
-ProgOf(c) == CASE c.f \in {"closure", "assign", "const"} -> P0(FamSeq(c.f)[c.i])
+ProgOf(c) == CASE c.f \in {"closure", "assign", "const", "catchvar"} -> P0(FamSeq(c.f)[c.i])
                [] c.f = "call" -> P0(CallProg(c))
                [] c.f = "rec" -> P0(RecProg(c))
                [] c.f = "destr" -> P0(DestrProg(c))
